@@ -6,7 +6,7 @@ Import ListNotations.
 From JV Require Import Model.EscMarkup Model.EscLang2 Model.EscCodegen Proofs.EscCodegenProofs.
 
 (* a table that passes the check yields the equations the evaluator of Model/EscLang2.v is built on:
-   output children and filter-block results are out_piece (mode_on vol ae rt), the buffer of a block
+   output children, filter-block and call-block results are out_piece (mode_on vol ae rt), the buffer of a block
    filter is wrap (mode_on ..), ~ is markup_join iff mode_on, set blocks are Markup / escape by the
    runtime flag, macro bodies return plain text and Macro._invoke / BlockReference wrap by the flag,
    constants are folded only outside volatile frames and escaped iff autoescape is on *)
